@@ -24,7 +24,7 @@ LEVEL_NOTE = ("Trusted: the canonicalisation (DefId numbers, %tmp names, generat
               "numeric title suffixes renumbered by first appearance); a forked child right after module "
               "import is a session with empty history.")
 TECHNIQUE = "history checker with fault injection (sys.monitoring failpoints in the compiler) against fresh-process baselines"
-RULE = ("pool of 33 definitions (incl. three that are fine themselves but depend on failing ones); check "
+RULE = ("pool of 34 definitions (incl. three that are fine themselves but depend on failing ones); check "
         "outcomes are compared with fresh-process baselines as well, half of the checks are repeated "
         "immediately; histories of 10-40 ops over {check, compile, emulate} x definition, 20% of "
         "compile ops carry a failpoint at a random line event inside compiler/*; distinct = distinct "
@@ -111,6 +111,10 @@ def n_rec0(k: int) -> int:
             return m
         return fib(m - 1) + fib(m - 2)
     return fib(k)
+
+@guppy
+def refers_fib(a: int) -> int:
+    return fib(a)
 
 @guppy
 def n_rec_twice(k: int) -> int:
@@ -239,7 +243,7 @@ def dep_bad_comptime(a: int) -> int:
 DEFS = ["V", "f_add", "f_loop", "f_arr", "f_calls", "g_id", "g_len", "g_use", "n_rec", "n_plain", "c_sum",
         "c_bad", "uses_comptime", "uses_ov", "q_bell", "q_mod", "main_ok", "bad_check", "bad_undefined",
         "bad_linear", "bad_generic_entry", "ov_a", "dep_bad", "dep_bad2", "dep_bad_comptime",
-        "n_rec0", "n_rec_twice", "t_many", "BadS", "uses_bads", "builds_bads", "GoodS", "uses_goods"]
+        "n_rec0", "n_rec_twice", "refers_fib", "t_many", "BadS", "uses_bads", "builds_bads", "GoodS", "uses_goods"]
 ENTRY_DEFS = {"main_ok"}
 COMPILER_SUFFIX = "guppylang_internals/compiler/"
 
@@ -409,7 +413,16 @@ def run_case(ctx, rng, idx, params, tier):
     seen_defs = set()
     injected_before = False
     hook0 = sys.excepthook
+    ns0 = set(vars(LD.module))
+    ns_reported = False
     for step in range(rng.randint(10, 40)):
+        if not ns_reported and set(vars(LD.module)) != ns0:
+            ns_reported = True
+            viols.append({"mech": "C11:module-namespace-changed-by-check-or-compile",
+                          "witness": {"history": hist[:], "added": sorted(set(vars(LD.module)) - ns0),
+                                      "removed": sorted(ns0 - set(vars(LD.module)))}})
+            for k_ in set(vars(LD.module)) - ns0:
+                delattr(LD.module, k_)
         if rng.random() < 0.08:
             # advance the session-wide temporary-variable counter to just below a power of ten, as
             # checking a suitable number of unrelated definitions would: names like %tmp9 / %tmp10
